@@ -1301,6 +1301,50 @@ def rule_r20(prog, res):
     res.floor('R20', 'recursive calls of guarded walkers', n, 2)
 
 
+# ------------------------------------------------------------------ R21
+def rule_r21(prog, res):
+    from ..flow import entails
+    res.rule('R21', 'a float taken from a request is converted with int() '
+             'only where is_integer() holds: int(inf) raises OverflowError '
+             'and int(nan) ValueError, neither of which the leaf readers '
+             'translate - the number readers of Json, Yaml and MessagePack '
+             'agree on this guard')
+    n = 0
+    for m in prog.modules.values():
+        if not m.name.startswith('spyne.protocol'):
+            continue
+        for f in [x for x in ast.walk(m.tree)
+                  if isinstance(x, ast.FunctionDef)]:
+            for c in walk_no_defs(f):
+                if not (isinstance(c, ast.Call) and isinstance(
+                        c.func, ast.Name) and c.func.id == 'int' and
+                        len(c.args) == 1 and isinstance(c.args[0], ast.Name)):
+                    continue
+                v = c.args[0].id
+                g = flatten_guards(guards_at(c, stop=f))
+                is_float = any(
+                    pol and isinstance(e, ast.Call) and call_name(e) ==
+                    'isinstance' and len(e.args) == 2 and unparse(
+                        e.args[0]) == v and 'float' in unparse(e.args[1])
+                    for e, pol in g)
+                if not is_float:
+                    continue
+                n += 1
+                ok = entails(g, '%s.is_integer()' % v)
+                where = '%s:%d' % (m.relpath, c.lineno)
+                res.ob('R21', where, '%s: int(%s) of a request float under '
+                       'is_integer()' % (f.name, v), 'ok' if ok else
+                       'VIOLATED')
+                if not ok:
+                    res.finding('R21', '%s|int-of-unchecked-float|%s' % (
+                        f.name, m.name.rsplit('.', 1)[-1]), where,
+                        'int(%s) is reached for every float: an infinity in '
+                        'the request raises OverflowError past the readers\' '
+                        'handlers and the request ends in a Server fault'
+                        % v)
+    res.floor('R21', 'int() conversions of request floats', n, 3)
+
+
 def run(prog, res, tier):
     res.run_rule(rule_r8, prog, res)
     res.run_rule(rule_r7, prog, res)
@@ -1321,6 +1365,7 @@ def run(prog, res, tier):
     res.run_rule(rule_r18, prog, res)
     res.run_rule(rule_r19, prog, res)
     res.run_rule(rule_r20, prog, res)
+    res.run_rule(rule_r21, prog, res)
     res.run_rule(rule_r4, prog, res, tier)
     res.run_rule(rule_r5, prog, res)
     res.run_rule(rule_r6, prog, res, tier)
@@ -1338,6 +1383,11 @@ _H = 'spyne/protocol/dictdoc/hier.py'
 _MI = 'spyne/protocol/soap/mime.py'
 
 MUTANTS = [
+    Mutant('msgpack-float-int-compare', 'R21', 'fire',
+           'spyne/protocol/msgpack.py',
+           in_func('MessagePackDocument._ret_number',
+                   "if not value.is_integer():",
+                   "if value != int(value):"), 'int-of-unchecked-float'),
     Mutant('href-descent-drops-cycle-guard', 'R20', 'fire',
            'spyne/protocol/soap/soap11.py',
            in_func('resolve_hrefs',
